@@ -16,6 +16,12 @@ def extOf (c : Char) : Option ExtKind :=
   if c = '?' then some .opt else if c = '*' then some .star else if c = '+' then some .plus
   else if c = '@' then some .one else if c = '!' then some .neg else none
 
+/-- what follows a member does not make it the start of a range (`-]` is a literal hyphen closing the bracket) -/
+def notRangeStart : List Char → Bool
+  | '-' :: ']' :: _ => true
+  | '-' :: _ => false
+  | _ => true
+
 /-- one bracket member (after the optional negation and first-position rules);
     returns the item list and the rest after the closing `]` -/
 def bracketItems : Nat → List Char → List SCls → Bool → Option (List SCls × List Char)
@@ -24,10 +30,7 @@ def bracketItems : Nat → List Char → List SCls → Bool → Option (List SCl
   | fuel+1, ']' :: rest, acc, first =>
     if first then
       -- a first `]` is a literal member; as a range START (`[]-x]`) it is outside the strict grammar
-      (match rest with
-       | '-' :: ']' :: _ => bracketItems fuel rest (acc ++ [.chr ']']) false
-       | '-' :: _ => none
-       | _ => bracketItems fuel rest (acc ++ [.chr ']']) false)
+      (if notRangeStart rest then bracketItems fuel rest (acc ++ [.chr ']']) false else none)
     else if acc.isEmpty then none else some (acc, rest)
   | fuel+1, '[' :: rest, acc, _ =>
     match matchPosix rest with
